@@ -75,7 +75,8 @@ HistAsgs(t) ==
   LET S  == Slots("Query", t, 1)
       AS == {sl \in S : sl.arg}
       OS == {sl \in S : ~sl.arg}
-      base == {{[slot |-> sl.slot, fn |-> f] : sl \in AS} : f \in {Fn("arg", Zero, 0), Fn("argmul", Zero, 0)}}
+      base == {{[slot |-> sl.slot, fn |-> f] : sl \in AS} : f \in (IF CtxMode THEN {Fn("arg", Zero, 0)}
+                                                                    ELSE {Fn("arg", Zero, 0), Fn("argmul", Zero, 0)})}
   IN  base \cup {b \cup {[slot |-> sl.slot, fn |-> g]} : b \in base, sl \in OS,
                                                         g \in {Fn("mul", Zero, 2), Fn("add", N(0, 2), 0)}}
 
